@@ -294,9 +294,11 @@ fn fits(remaining: usize, indent: usize, group_inner: &Doc, rest: &[Frame]) -> b
     false
 }
 
+/// Strip trailing spaces and tabs from every line. Only those two: any other white space (a
+/// no-break space, a form feed, …) can only come from string text, where the parser keeps it.
 fn strip_trailing_whitespace(s: &str) -> String {
     s.lines()
-        .map(|line| line.trim_end())
+        .map(|line| line.trim_end_matches([' ', '\t']))
         .collect::<Vec<_>>()
         .join("\n")
 }
